@@ -2,20 +2,36 @@
 # usage: confirm_mutant.sh <mutant dir with patch.diff + demo.rs [+ meta.json]> <name>
 # Confirms in a scratch worktree of /repo HEAD: (a) patch applies, suite green with it,
 # (b) demo fails with it, (c) demo passes without it.  Prints one summary line.
+# Extra cargo flags for the demo (--release, --features ...) are taken from meta.json "demo_cmd".
 d=$1; name=$2
 wt=/tmp/mv/$name
+mkdir -p /tmp/mv
 rm -rf $wt; git -C /repo worktree prune
 git -C /repo worktree add --detach $wt HEAD >/dev/null 2>&1 || { echo "$name WORKTREE-FAIL"; exit 1; }
 cd $wt
 export CARGO_NET_OFFLINE=true CARGO_TARGET_DIR=$wt/target
-rel=""; grep -qi 'release' $d/meta.json 2>/dev/null && rel="--release"
+extra=$(python3 - "$d/meta.json" <<'PY'
+import json,sys,re
+try:
+    m=json.load(open(sys.argv[1]))
+except Exception:
+    print(""); raise SystemExit
+c=m.get("demo_cmd","") or ""
+out=[]
+if "--release" in c: out.append("--release")
+f=re.search(r"--features[ =]+([\w,\- ]+?)(?:\s--|\s*$)", c)
+if f: out.append("--features "+f.group(1).strip().replace(" ",","))
+print(" ".join(out))
+PY
+)
+rel=""; [ -z "$extra" ] && grep -qi 'release' $d/meta.json 2>/dev/null && rel="--release"
 if ! git apply $d/patch.diff 2>/dev/null; then echo "$name APPLY-FAIL"; cd /; git -C /repo worktree remove --force $wt; exit 0; fi
 suite=$(cargo nextest run --workspace --no-fail-fast --offline 2>&1 | grep -E 'Summary|error(\[|:)' | head -2 | tr '\n' ' ')
 cp $d/demo.rs tests/demo.rs
-cargo test --offline --test demo > /tmp/mv/$name.with.log 2>&1; with=$?
+cargo test --offline --test demo $extra > /tmp/mv/$name.with.log 2>&1; with=$?
 if [ -n "$rel" ]; then cargo test --offline --release --test demo > /tmp/mv/$name.withrel.log 2>&1; withrel=$?; else withrel=-; fi
 git apply -R $d/patch.diff
-cargo test --offline --test demo > /tmp/mv/$name.without.log 2>&1; without=$?
+cargo test --offline --test demo $extra > /tmp/mv/$name.without.log 2>&1; without=$?
 if [ -n "$rel" ]; then cargo test --offline --release --test demo > /tmp/mv/$name.withoutrel.log 2>&1; withoutrel=$?; else withoutrel=-; fi
-echo "$name suite=[$suite] demo_with=$with demo_with_release=$withrel demo_without=$without demo_without_release=$withoutrel"
+echo "$name extra=[$extra] suite=[$suite] demo_with=$with demo_with_release=$withrel demo_without=$without demo_without_release=$withoutrel"
 cd /; git -C /repo worktree remove --force $wt
